@@ -36,7 +36,8 @@ type protoScenario struct {
 	Bound    int         `json:"bound"` // dfs: preemption bound (-1 = unbounded)
 	Runs     int         `json:"runs"`  // pct/free: number of schedules; dfs: cap
 	Seed     int64       `json:"seed"`
-	Prefix   []int       `json:"prefix,omitempty"` // replay of one dfs schedule
+	Prefix   []int       `json:"prefix,omitempty"`    // replay of one dfs schedule
+	Listen   bool        `json:"listeners,omitempty"` // attach a block listener (verbosity 5)
 }
 
 type protoViolation struct {
@@ -139,10 +140,19 @@ func execOnce(sc *protoScenario, data, stream []byte, rn runner, firedFn func() 
 		if sc.Hint {
 			hint = int64(len(data))
 		}
-		w, err = kio.NewWriter(sink, sc.Cfg[0], sc.Cfg[1], sc.BlockSz, uint(sc.Tasks), sc.Checksum, hint, false)
+		if sc.Listen {
+			w, err = kio.NewWriterWithCtx(sink, map[string]any{"transform": sc.Cfg[0], "entropy": sc.Cfg[1], "blockSize": sc.BlockSz, "jobs": uint(sc.Tasks),
+				"checksum": sc.Checksum, "fileSize": hint, "headerless": false, "verbosity": uint(5)})
+		} else {
+			w, err = kio.NewWriter(sink, sc.Cfg[0], sc.Cfg[1], sc.BlockSz, uint(sc.Tasks), sc.Checksum, hint, false)
+		}
 		if err != nil {
 			o.apiErr = err
 			return
+		}
+		if sc.Listen {
+			var n int64
+			w.AddListener(atomicListener{&n})
 		}
 		o.events = rn.Run(func() {
 			o.panicked = catch(func() {
@@ -164,10 +174,17 @@ func execOnce(sc *protoScenario, data, stream []byte, rn runner, firedFn func() 
 		if sc.To > 0 {
 			ctx["to"] = sc.To
 		}
+		if sc.Listen {
+			ctx["verbosity"] = uint(5)
+		}
 		r, err := kio.NewReaderWithCtx(&kz.Source{Data: stream}, ctx)
 		if err != nil {
 			o.apiErr = err
 			return
+		}
+		if sc.Listen {
+			var n int64
+			r.AddListener(atomicListener{&n})
 		}
 		o.events = rn.Run(func() {
 			o.panicked = catch(func() {
